@@ -8,4 +8,5 @@ package certs
 //@   modifies auto
 //@   assumes _nextInstance >= nextInstance
 //@   assumes err == nil ==> _nextInstance == nextInstance + len(certs)
+//@   assumes err == nil && isTableFor(prevPowerTable, nextInstance) ==> isTableFor(newPowerTable, _nextInstance)
 //@   assumes err == nil ==> forall(i, 0, len(certs), certs[i].GPBFTInstance == nextInstance + i)
